@@ -408,3 +408,7 @@ Lemma taptree_p_total Hleaf Hbranch maxvec bs w : taptree_p Hleaf Hbranch maxvec
 Proof. unfold taptree_p. destruct (taptree_loop _ _ _ _ _ _) eqn:E; cbn [bind]; try discriminate.
   - destruct (Taproot.is_complete _); discriminate.
   - exfalso. apply (taptree_loop_total _ _ _ _ _ _ w0) in E; [exact E|lia]. Qed.
+
+(* ------------------------------------------------------------------------------------------------ PSET count caps *)
+Lemma pset_reserve_bound sz count : snd (pset_reserve sz count) <= PSET_MAX_COUNT * sz /\ is_panic (fst (pset_reserve sz count)) = false.
+Proof. unfold pset_reserve. destruct (N.ltb_spec PSET_MAX_COUNT count); cbn [fst snd is_panic]; split; try reflexivity; nia. Qed.
